@@ -176,6 +176,39 @@ def bounded(ctx):
                                          observed=str(prod.seq) if prod is not None else list(got)))
             if len(samples) < 2:
                 samples.append(dict(enzyme=e.__name__, chain=chain_len, segments=segs))
+    # modules wrapped by signature-typed PART classes (degenerate letter / wildcard side in the signature): the assembly
+    # succeeds with the documented product, and so does every replacement by another member with the same two overhangs
+    tp = ba.typed_part_scenario(ns, rng)
+    if tp is not None:
+        evals += 1
+        mk_ = lambda c_, t_, i_: c_(CircularRecord(Seq(t_), id=i_))
+        vec_ = tp["vec_cls"](CircularRecord(Seq(tp["vtext"]), id="v"))
+        base_ = [mk_(c_, t_, "p%d" % i_) for i_, (c_, t_) in enumerate(tp["parts"])]
+        got0, prod0, _ = ba.run_assembly(vec_, base_)
+        want0 = "".join(tp["frags"]) + tp["vfrag"]
+        distinct.add(("typed-parts", "base"))
+        if got0[0] != "product" or not ba.is_rotation(str(prod0.seq), want0):
+            viol.append(dict(name="typed_parts_base", what="modules typed by part classes (signatures GGAS/TACT, TACT/NNNN; overhangs %r): ended with %r" % (tp["overhangs"], got0[:2]),
+                             case=dict(vector=tp["vtext"], parts=[t_ for _, t_ in tp["parts"]])))
+        else:
+            site_, a_, k_ = be.enzyme_geometry(BsaI)
+            for j_, (c_, t_) in enumerate(tp["parts"]):
+                for _try in range(3):
+                    evals += 1
+                    nt_ = ba.clean(rng, rng.randint(3, 9), BsaI)
+                    rt_ = ba.build_module(BsaI, tp["overhangs"][j_], nt_, tp["overhangs"][j_ + 1], rng, backbone=rng.randint(3, 12))
+                    if rt_ is None:
+                        continue
+                    ms_ = list(base_)
+                    ms_[j_] = mk_(c_, ba.rotate(rt_, rng.randrange(len(rt_))), "r")
+                    got_, prod_, _ = ba.run_assembly(vec_, ms_)
+                    frs_ = list(tp["frags"])
+                    frs_[j_] = tp["overhangs"][j_] + nt_
+                    distinct.add(("typed-parts", j_, _try))
+                    if got_[0] != "product" or not ba.is_rotation(str(prod_.seq), "".join(frs_) + tp["vfrag"]):
+                        viol.append(dict(name="typed_parts_swap_%d" % j_, what="part-typed module %d replaced by another member of its type with the same overhangs: %s" % (
+                            j_, "ended with %r" % (got_[:2],) if got_[0] != "product" else "product differs outside that module's segment"),
+                                         case=dict(vector=tp["vtext"], parts=[t_ for _, t_ in tp["parts"]], replacement=rt_)))
     # junctions that spell a recognition site: the overhang between two modules is the inner part of the enzyme's site and
     # the neighbouring target letters complete it (each module alone is a valid module; the site only exists in the
     # product, across the ligation scar).  Swapping in such a module is a replacement like any other.
